@@ -210,7 +210,7 @@ def definition_cases(draw):
 
 class Definitions(Facet):
     name = "definitions"
-    examples = {"quick": 6000, "thorough": 60000}
+    examples = {"quick": 6000, "thorough": 180000}
     shards = {"quick": 16, "thorough": 16}
 
     def strategy(self, tier):
@@ -293,7 +293,7 @@ NEG = ["sysenv-not-first", "sysenv-missing", "undefined-dim-flow", "undefined-di
 
 class Negative(Facet):
     name = "negative"
-    examples = {"quick": 1500, "thorough": 20000}
+    examples = {"quick": 1500, "thorough": 60000}
     shards = {"quick": 8, "thorough": 16}
 
     def strategy(self, tier):
@@ -381,7 +381,7 @@ def dimfile_cases(draw):
 
 class DimFiles(Facet):
     name = "dimfiles"
-    examples = {"quick": 1200, "thorough": 12000}
+    examples = {"quick": 1200, "thorough": 36000}
     shards = {"quick": 16, "thorough": 16}
 
     def strategy(self, tier):
@@ -461,7 +461,7 @@ def file_cases(draw):
 
 class Files(Facet):
     name = "files"
-    examples = {"quick": 600, "thorough": 6000}
+    examples = {"quick": 600, "thorough": 18000}
     shards = {"quick": 16, "thorough": 16}
 
     def strategy(self, tier):
